@@ -30,6 +30,8 @@ impl SnapshotWriter {
             //.append(true)
             //.create_new(true)
             .create(true)
+            //上一次未完成的打包(进程中途退出)可能留下同名且更长的文件,其多余内容会在重启时被当作镜像记录加载
+            .truncate(true)
             .open(path)
             .await?;
         let mut buf = Vec::new();
